@@ -476,3 +476,45 @@ func enumPadded(names []string, emit func(CaseName) bool) {
 		}
 	}
 }
+
+// enumTwoSub emits every name that differs from a table name in exactly two positions (each of the 256 byte values
+// at both): compare loops that accumulate or combine differences per word or per position can cancel two of them.
+func enumTwoSub(names []string, shard, nshards int, emit func(CaseName) bool) {
+	idx := 0
+	for _, n := range names {
+		b := []byte(n)
+		for p := 0; p < len(b); p++ {
+			for q := p + 1; q < len(b); q++ {
+				idx++
+				if idx%nshards != shard {
+					continue
+				}
+				s := append([]byte{}, b...)
+				for v := 0; v < 256; v++ {
+					s[p] = byte(v)
+					for w := 0; w < 256; w++ {
+						s[q] = byte(w)
+						if !emit(CaseName{Name: append(B{}, s...)}) {
+							return
+						}
+					}
+				}
+			}
+		}
+	}
+}
+
+// enumLongPadded: every table name followed by 256 / 512 / 768 further bytes (a length that wraps an 8-bit counter
+// back onto the name's own length) and by 255 / 257 (just beside it).
+func enumLongPadded(names []string, emit func(CaseName) bool) {
+	for _, n := range names {
+		for _, pad := range []int{255, 256, 257, 512, 768, 1024} {
+			for _, fill := range []byte{'X', 'a', '-', 0} {
+				o := append([]byte(n), bytes.Repeat([]byte{fill}, pad)...)
+				if !emit(CaseName{Name: o}) {
+					return
+				}
+			}
+		}
+	}
+}
